@@ -48,5 +48,8 @@ func (eval Evaluator) Average(ctIn *rlwe.Ciphertext, logBatchSize int, opOut *rl
 		s.MulScalarMontgomery(ctIn.Value[1].Coeffs[i], invN, opOut.Value[1].Coeffs[i])
 	}
 
+	opOut.Resize(opOut.Degree(), level)
+	*opOut.MetaData = *ctIn.MetaData
+
 	return eval.InnerSum(opOut, 1<<logBatchSize, n, opOut)
 }
